@@ -5,6 +5,7 @@ import (
 	"fmt"
 	"math/rand"
 
+	"github.com/herohde/morlock/cmd/sargon/sargon"
 	"github.com/herohde/morlock/pkg/board"
 	"github.com/herohde/morlock/pkg/eval"
 	"github.com/herohde/morlock/pkg/search"
@@ -392,6 +393,60 @@ func runC13(c *fw.Ctx, cs fw.Case) {
 	if !c.Quick() {
 		budget = 40000
 	}
+	if cs.Kind == "mindepth" {
+		// depth-3 searches of game positions with the history-dependent SARGON evaluation (with and without
+		// its check extension) on the engine's min-depth-1 table: equal to the table-less search, window by
+		// window (see the comment at the per-root variant below for why nothing may change)
+		starts := gen.Starts()
+		for i := 0; i < cs.N; i++ {
+			h := gen.Playout(r, starts[r.Intn(len(starts))], r.Intn(40), gen.Biases[r.Intn(len(gen.Biases))])
+			rb, ok := boardOf(h)
+			if !ok {
+				continue
+			}
+			n0, n1 := branching(rb, 0)
+			if n0 == 0 || float64(n0*n1*n0) > 60000 {
+				continue
+			}
+			points := &sargon.Points{}
+			var inner search.Search = search.AlphaBeta{Explore: sargon.SkipUnderPromotions, Eval: search.Leaf{Eval: points}}
+			name := "sargon points, plain leaf"
+			if i%2 == 0 {
+				inner = search.AlphaBeta{Explore: sargon.SkipUnderPromotions, Eval: sargon.OnePlyIfChecked{Leaf: search.Leaf{Eval: points}}}
+				name = "sargon"
+			}
+			s := sargon.Hook{Eval: inner, Hook: points}
+			what := fmt.Sprintf("config %s depth 3 %s", name, histDesc(h))
+			b0, _ := boardOf(h)
+			_, want, _, err := s.Search(budgetCtx(), fullWindow(), b0, 3)
+			if err != nil {
+				continue
+			}
+			wv, okW := refsearch.FromEval(want)
+			if !okW {
+				continue
+			}
+			ws := windowsAround(r, wv, 0.125)[:2]
+			ws = append([][2]refsearch.Score{{{Kind: refsearch.Loss}, {Kind: refsearch.Win}}}, ws...)
+			for _, w := range ws {
+				b, _ := boardOf(h)
+				tt := search.NewMinDepthTranspositionTable(1)(ctx, 1<<20)
+				_, score, _, err := s.Search(budgetCtx(), &search.Context{Alpha: w[0].ToEval(), Beta: w[1].ToEval(), TT: tt}, b, 3)
+				if err != nil {
+					break
+				}
+				c.Eval(1)
+				c.Count("min_depth_table_depth3_searches", 1)
+				got, okScore := refsearch.FromEval(score)
+				if !okScore || !clipOK(wv, w[0], w[1], got) {
+					c.Violate("window:clip-min-depth-table", "window (%v, %v) on a fresh min-depth-1 table: search returns %v, the table-less value is %v: %s", w[0], w[1], score, want, what)
+					break
+				}
+			}
+			c.Distinct(what)
+		}
+		return
+	}
 	for i := 0; i < cs.N; i++ {
 		root, cfg, depth, ok := searchCase(c, r, i+cs.Idx, budget, 6)
 		if !ok {
@@ -464,6 +519,32 @@ func runC13(c *fw.Ctx, cs fw.Case) {
 				got, okScore := refsearch.FromEval(score)
 				if !okScore || !clipOK(v, w[0], w[1], got) {
 					c.Violate("window:clip-shared-table", "window (%v, %v) on a table (%s) shared with earlier windowed searches: search returns %v, the true value is %v: %s", w[0], w[1], tname, score, v, what)
+					break
+				}
+			}
+		}
+
+		// history-dependent evaluators (TUROCHAMP, SARGON) on the engine's own table type, which does not keep
+		// entries below depth 1: up to depth 3 no stored node can be reached a second time within one search
+		// (the same position with the same side to move needs four plies), so a fresh table of that type
+		// must not change anything; a leaf entry that slips through would be served to a leaf reached by
+		// another move order, which these evaluators rate differently
+		if !cfg.posDetermined && depth <= 3 && !moveless {
+			ws := windowsAround(r, v, 0.125)
+			ws = append([][2]refsearch.Score{{{Kind: refsearch.Loss}, {Kind: refsearch.Win}}}, ws...)
+			for _, w := range ws {
+				b, _ := boardOf(root.h)
+				tt := search.NewMinDepthTranspositionTable(1)(context.Background(), 1<<18)
+				sctx := &search.Context{Alpha: w[0].ToEval(), Beta: w[1].ToEval(), TT: tt}
+				_, score, _, err := s.Search(budgetCtx(), sctx, b, depth)
+				if err != nil {
+					break
+				}
+				c.Eval(1)
+				c.Count("windowed_searches_min_depth_table", 1)
+				got, okScore := refsearch.FromEval(score)
+				if !okScore || !clipOK(v, w[0], w[1], got) {
+					c.Violate("window:clip-min-depth-table", "window (%v, %v) on a fresh min-depth-1 table: search returns %v, the true value is %v: %s", w[0], w[1], score, v, what)
 					break
 				}
 			}
@@ -544,10 +625,11 @@ func init() {
 		Setup:       validateOracle,
 		Timeout:     minutes(15, 120),
 		Cases: func(tier string, seed int64) []fw.Case {
-			return mkCases(nil, "windows", 64, seed, pick(tier, 20, 250))
+			l := mkCases(nil, "windows", 64, seed, pick(tier, 20, 250))
+			return mkCases(l, "mindepth", 32, seed, pick(tier, 60, 600))
 		},
 		Floors: func(string) map[string]int64 {
-			return map[string]int64{"windowed_searches": 5000, "windowed_quiet": 500, "win_inside": 500, "win_fail_low": 500, "win_fail_high": 500, "win_mate_bound": 1000, "quiet_terminal": 20}
+			return map[string]int64{"windowed_searches": 5000, "windowed_quiet": 500, "win_inside": 500, "win_fail_low": 500, "win_fail_high": 500, "win_mate_bound": 1000, "quiet_terminal": 20, "min_depth_table_depth3_searches": 2000}
 		},
 		Run: runC13,
 	})
